@@ -23,7 +23,7 @@ import (
 )
 
 type c16GrainOut struct {
-	Grains, Messages, Requests, Rejected, Replies, Timeouts, Cancels, Continuations int64
+	Grains, Messages, Requests, Rejected, Replies, Timeouts, Cancels, Continuations, Panics int64
 	Violations                                                                      []string
 }
 
@@ -135,6 +135,10 @@ func (g *c16Grain) OnReceive(gctx *GrainContext) {
 				g.viol.add("%s: %d requests in flight, limit %d", g.name, l, g.limit)
 			}
 		}
+		explode := g.rng.intn(6) == 0
+		if explode {
+			atomic.AddInt64(&g.stats.Panics, 1)
+		}
 		call.Then(func(_ any, err error) {
 			g.enter("continuation")
 			defer g.leave()
@@ -156,6 +160,10 @@ func (g *c16Grain) OnReceive(gctx *GrainContext) {
 			g.outst--
 			if r.stashMode {
 				g.blockOut--
+			}
+			if explode {
+				// contained by the turn's recovery; the request's bookkeeping must already be released
+				panic("c16: continuation exploded")
 			}
 		})
 		if g.rng.intn(8) == 0 {
@@ -271,5 +279,114 @@ func TestVerifC16Grain(t *testing.T) {
 		_ = i
 	}
 	out.Violations = viol.v
+	w.put(out)
+}
+
+// TestVerifC16GrainPanic: a StashNonReentrant grain, one blocking request, two ordinary messages held
+// behind it, and a reply whose continuation panics on the grain's turn. The panic is contained by the
+// turn; the request has completed, so its bookkeeping must be released and the held messages handled.
+type c16GrainPanicOut struct {
+	Continuations, InFlight, Blocking int64
+	TableLen                          int
+	Handled                           []int32
+	Violations                        []string
+}
+
+type c16ScriptGrain struct{ receive func(*GrainContext) }
+
+func (g *c16ScriptGrain) OnActivate(context.Context, *GrainProps) error   { return nil }
+func (g *c16ScriptGrain) OnDeactivate(context.Context, *GrainProps) error { return nil }
+func (g *c16ScriptGrain) OnReceive(gctx *GrainContext)                    { g.receive(gctx) }
+
+func TestVerifC16GrainPanic(t *testing.T) {
+	w := newVerifWriter(t, "c16_grain_panic_out.jsonl")
+	defer w.close()
+	out := c16GrainPanicOut{}
+	sys, ctx := c16System(t, "c16-grain-panic")
+	release := make(chan struct{})
+	got := make(chan struct{}, 1)
+	c16Spawn(t, sys, ctx, "gp-target", func(rc *ReceiveContext) {
+		if _, ok := rc.Message().(*testpb.TestCount); ok {
+			got <- struct{}{}
+			<-release
+			rc.Response(&testpb.Reply{Content: "ok"})
+		}
+	})
+	var mu sync.Mutex
+	var handled []int32
+	var conts atomic.Int64
+	grain := &c16ScriptGrain{receive: func(gctx *GrainContext) {
+		m, ok := gctx.Message().(*testpb.TestCount)
+		if !ok {
+			gctx.Unhandled()
+			return
+		}
+		if m.GetValue() == 1 {
+			gctx.RequestActor("gp-target", &testpb.TestCount{Value: 1}, WithRequestTimeout(30*time.Second)).Then(func(any, error) {
+				conts.Add(1)
+				panic("c16: continuation exploded")
+			})
+		} else {
+			mu.Lock()
+			handled = append(handled, m.GetValue())
+			mu.Unlock()
+		}
+		gctx.NoErr()
+	}}
+	id, err := sys.GrainIdentity(ctx, "gp-requester", func(context.Context) (Grain, error) { return grain, nil },
+		WithGrainReentrancy(reentrancy.New(reentrancy.WithMode(reentrancy.StashNonReentrant), reentrancy.WithMaxInFlight(1))))
+	if err != nil {
+		t.Fatalf("GrainIdentity: %v", err)
+	}
+	pid, ok := sys.(*actorSystem).grains.Get(id.String())
+	if !ok {
+		t.Fatal("grain not active")
+	}
+	defer pid.reentrancy.Load().reset() // a grain left paused would stall system.Stop
+	if err := sys.TellGrain(ctx, id, &testpb.TestCount{Value: 1}); err != nil {
+		t.Fatalf("TellGrain: %v", err)
+	}
+	<-got
+	for i, n := range []int32{2, 3} {
+		go func(n int32) {
+			tctx, cancel := context.WithTimeout(ctx, 20*time.Second)
+			defer cancel()
+			_ = sys.TellGrain(tctx, id, &testpb.TestCount{Value: n})
+		}(n)
+		want := int64(i + 1)
+		c16WaitFor(t, "held message enqueued", func() bool { return pid.mailbox.Len() == want })
+	}
+	mu.Lock()
+	if len(handled) != 0 {
+		out.Violations = append(out.Violations, fmt.Sprintf("ordinary messages %v handled while the blocking request was outstanding", handled))
+	}
+	mu.Unlock()
+	close(release)
+	deadline := time.Now().Add(15 * time.Second)
+	for time.Now().Before(deadline) {
+		re := pid.reentrancy.Load()
+		mu.Lock()
+		n := len(handled)
+		mu.Unlock()
+		if conts.Load() == 1 && re.inFlightCount.Load() == 0 && re.blockingCount.Load() == 0 && re.requestStates.Len() == 0 && n == 2 {
+			break
+		}
+		time.Sleep(time.Millisecond)
+	}
+	re := pid.reentrancy.Load()
+	out.Continuations, out.InFlight, out.Blocking, out.TableLen = conts.Load(), re.inFlightCount.Load(), re.blockingCount.Load(), re.requestStates.Len()
+	mu.Lock()
+	out.Handled = append([]int32{}, handled...)
+	mu.Unlock()
+	if out.Continuations != 1 {
+		out.Violations = append(out.Violations, fmt.Sprintf("continuation ran %d times", out.Continuations))
+	}
+	if out.InFlight != 0 || out.Blocking != 0 || out.TableLen != 0 {
+		out.Violations = append(out.Violations, fmt.Sprintf("after the request completed (its continuation panicked on the turn) inFlightCount=%d blockingCount=%d len(requestStates)=%d",
+			out.InFlight, out.Blocking, out.TableLen))
+	}
+	if len(out.Handled) != 2 || out.Handled[0] != 2 || out.Handled[1] != 3 {
+		out.Violations = append(out.Violations, fmt.Sprintf("held messages [2 3] handled as %v after the blocking request completed", out.Handled))
+	}
 	w.put(out)
 }
